@@ -143,6 +143,53 @@ def after_move(x0: int, dx: int, qx: int, lw: int, rm: bool) -> bool:
     return hx.end(hx.same_seq(got, exp) or hx.fail("query after move/remove", got=[g.id for g in got], exp=[e.id for e in exp]))
 
 
+def after_move_to(x0: int, y0: int, tx: int, ty: int, tz: int, qx: int, qy: int, lw: int) -> bool:
+    """
+    pre: 0 <= x0 <= 9 and 0 <= y0 <= 6
+    post: _
+    """
+    # an absolute move is either carried out completely or rejected (IndexError) and then changes nothing: the query
+    # afterwards sees the agent exactly at the position it has been GIVEN (never at a mixture of old and new coordinates)
+    hx.begin()
+    m = Model(logger=NULL_LOGGER)
+    kind = hx.P['world']
+    if kind == 'space':
+        env = SpaceWorld(m, 9, 6, 0)
+        m.environment = env
+        maxx, maxy = 9, 6
+    else:
+        env = _world(m, 'grid', 6, 5, 0, False)
+        maxx, maxy = 5, 4
+        if x0 > maxx or y0 > maxy:
+            return hx.end(True)
+    a, b = Agent("a", m), Agent("b", m)
+    env.add_agent(a, x0, y0)
+    env.add_agent(b, 2, 2)
+    legal = 0 <= tx <= maxx and 0 <= ty <= maxy        # (z: the world has no depth, any z is accepted)
+    try:
+        env.move_to(a, tx, ty, tz)
+        if not legal:
+            return hx.end(hx.fail("out-of-range move_to accepted", target=(tx, ty, tz)))
+        pos = (tx, ty)
+        hx.reach('moved')
+    except IndexError:
+        if legal:
+            return hx.end(hx.fail("in-range move_to rejected", target=(tx, ty, tz)))
+        pos = (x0, y0)
+        hx.reach('rejected')
+    got = env.get_agents_at(qx, qy, tz if legal else 0, leeway=lw)
+    l0 = lw if lw > 0 else 0
+    exp = []
+    if _absdiff(pos[0], qx) <= l0 and _absdiff(pos[1], qy) <= l0:
+        exp.append(a)
+    if _absdiff(2, qx) <= l0 and _absdiff(2, qy) <= l0 and _absdiff(0, tz if legal else 0) <= l0:
+        exp.append(b)
+    if a in exp:
+        hx.reach('found')
+    return hx.end(hx.same_seq(got, exp) or hx.fail("query after move_to", given=pos, target=(tx, ty, tz), query=(qx, qy), leeway=lw,
+                                                   got=[g.id for g in got], exp=[e.id for e in exp]))
+
+
 def _seam_dist(p, q, e):
     d = _absdiff(p, q) % e
     return d if d <= e - d else e - d
@@ -205,6 +252,8 @@ def obligations(tier):
         X("box_int", box_int, parts=parts, labels=("none", "some", "all"),
           labels_for=lambda p: ("none", "all") if p["n"] == 1 else ("none", "some", "all"), timeout=1800, encoded=enc),
         X("after_move", after_move, labels=("removed", "found"), timeout=600, encoded=enc + (SpaceWorld.move, SpaceWorld.remove_agent)),
+        X("after_move_to", after_move_to, parts=[{"world": "space"}, {"world": "grid"}], labels=("moved", "rejected", "found"), timeout=600,
+          encoded=enc + (SpaceWorld.move_to,), bounds={"world": "10x7 continuous / 6x5 grid, 2 agents", "start, target, query point, leeway": "all ints"}),
         X("wrap_outside_F5", wrap_box, parts=[{"mode": "outside", "w": w} for w in W], labels=("no_seam",), timeout=600, encoded=enc,
           bounds={"extent": "one of %s; position, query point, leeway >= 0: all ints" % (W,)}),
         X("wrap_seam.prop", wrap_box, parts=[{"mode": "prop", "w": 10}], labels=("seam",), timeout=600, encoded=enc, role="finding_prop", finding="F5"),
